@@ -20,11 +20,13 @@
      tower to the centroid = wind_dir or wind_dir + 180";
    - oblique wind directions (no grid symmetry exists; the clause holds only to within "a few degrees" there);
    - the tolerance "a few degrees" itself, and rounding: everything here is exact arithmetic under Laws O;
-   - a tower between grid lines (odd m) has the cell symmetry but is not covered by the centroid statements.
-   These stay with the end-to-end oracle of harness/props/c08.py. *)
-From Coq Require Import ZArith List Bool Reals.
-From BL Require Import Base.Ops Base.Laws Base.ROps Model.Solver Model.Wind Model.Pbl
-  Proofs.SpecProofs Proofs.C06Proofs Proofs.C07Mirror Proofs.C08Axis Proofs.C08AxisWind.
+   These stay with the end-to-end oracle of harness/props/c08.py.
+   That the hypothesis no_v / no_u is what compute_wind_fields and the profiles produce for the cardinal directions
+   is Properties/C08AxisWind.v (over R; a separate file because it imports the Interval/Coquelicot-based profile
+   proofs, on which the independent checker coqchk takes more than 20 minutes). *)
+From Coq Require Import ZArith List Bool.
+From BL Require Import Base.Ops Base.Laws Model.Solver
+  Proofs.SpecProofs Proofs.C06Proofs Proofs.C07Mirror Proofs.C08Axis.
 Import ListNotations.
 
 (* ---------------------------------------------------------------- wind along x (wind_dir 90 / 270): rows *)
@@ -197,57 +199,71 @@ Goal True. idtac "THEOREM C08_centroid_on_wind_axis_x_noNyq_partial". Abort. Pri
 Goal True. idtac "THEOREM C08_axis_nonvacuous". Abort. Print Assumptions C08_axis_nonvacuous.
 Goal True. idtac "THEOREM C08_axis_example_applied". Abort. Print Assumptions C08_axis_example_applied.
 
-(* ---------------------------------------------------------------- the hypothesis is what the interface produces *)
-(* over R: compute_wind_fields (C08_cardinals) and the profiles (C09_direction); env_wind E U wd :=
-   (e_um E, e_vm E) = compute_wind_fields U wd; column f n := [RtoC (f 0); ...; RtoC (f (n-1))] *)
-Open Scope R_scope.
+(* ---------------------------------------------------------------- any tower position (on a grid line or half way) *)
+(* rsum O j0 n w := sum of w j over the rows j = j0 .. j0+n-1; the window is centred on the tower: 2 j0 + n - 1 = m, where
+   tower_y a g m, i.e. 2 ym = m dy; rows are taken cyclically on the padded grid (cyc nye 0 j = j mod nye) and must be rows
+   of the returned array; exact_y_at O g m := Nat.odd nly = true \/ (nly = nye /\ Z.even m = true) *)
+Theorem C08_centroid_on_wind_axis_any_tower_partial : forall (O : Ops), Laws O -> forall (a : args O) (g : geom O) sel k j0 n m cols,
+  (forall pq s, sel (cmul O (fst pq) s, cmul O (snd pq) s) = cmul O (sel pq) s) ->
+  geometry O a = inl g -> a_footprint O a = true -> no_v O a -> g_dy O g <> c0 O ->
+  tower_y O a g m -> exact_y_at O g m -> (2 * j0 + Z.of_nat n - 1 = m)%Z -> n <> 0%nat ->
+  (k < length (a_levels O a))%nat ->
+  (forall j, (j0 <= j < j0 + Z.of_nat n)%Z -> (cyc (g_nye O g) 0 j < g_ny O g)%nat) ->
+  (forall i, In i cols -> (i < g_nx O g)%nat) ->
+  let S := fun j : Z => csum O (map (fun i =>
+              get3 O (field O a g sel (table O a g)) k (cyc (g_nye O g) 0 j) i) cols) in
+  rsum O j0 n (fun j => cmul O (cofZ O (2 * j - m)) (S j)) = c0 O /\
+  rsum O j0 n (fun j => cmul O (cmul O (cofZ O j) (g_dy O g)) (S j)) = cmul O (a_ym O a) (rsum O j0 n S).
+Proof. exact centroid_rows_any. Qed.
 
-Theorem C08_cardinal_no_crosswind : forall c E U wd i, U <> 0 -> env_wind E U wd ->
-  (wd = 90 \/ wd = 270 -> v_node c E i = 0) /\ (wd = 0 \/ wd = 180 -> u_node c E i = 0).
-Proof. exact (fun c E U wd i HU Hw => conj (fun Hwd => east_west_no_v c E U wd i HU Hwd Hw) (fun Hwd => north_south_no_u c E U wd i HU Hwd Hw)). Qed.
+Theorem C08_centroid_on_wind_axis_any_tower_noNyq_partial : forall (O : Ops), Laws O -> forall (a : args O) (g : geom O) sel k j0 n m cols,
+  (forall pq s, sel (cmul O (fst pq) s, cmul O (snd pq) s) = cmul O (sel pq) s) ->
+  geometry O a = inl g -> a_footprint O a = true -> no_v O a -> g_dy O g <> c0 O ->
+  tower_y O a g m -> (2 * j0 + Z.of_nat n - 1 = m)%Z -> n <> 0%nat ->
+  (k < length (a_levels O a))%nat ->
+  (forall j, (j0 <= j < j0 + Z.of_nat n)%Z -> (cyc (g_nye O g) 0 j < g_ny O g)%nat) ->
+  (forall i, In i cols -> (i < g_nx O g)%nat) ->
+  let S := fun j : Z => csum O (map (fun i =>
+              get3 O (field O a g sel (table_noNyq_y O a g)) k (cyc (g_nye O g) 0 j) i) cols) in
+  rsum O j0 n (fun j => cmul O (cofZ O (2 * j - m)) (S j)) = c0 O /\
+  rsum O j0 n (fun j => cmul O (cmul O (cofZ O j) (g_dy O g)) (S j)) = cmul O (a_ym O a) (rsum O j0 n S).
+Proof. exact centroid_rows_any_noNyq. Qed.
 
-Theorem C08_cardinal_request : forall c E U wd (a : args ROps) n, U <> 0 -> env_wind E U wd ->
-  (wd = 90 \/ wd = 270 -> p_v ROps (a_prof ROps a) = column (v_node c E) n -> no_v ROps a) /\
-  (wd = 0 \/ wd = 180 -> p_u ROps (a_prof ROps a) = column (u_node c E) n -> no_u ROps a).
-Proof. exact (fun c E U wd a n HU Hw => conj (fun Hwd => request_no_v c E U wd a n HU Hwd Hw) (fun Hwd => request_no_u c E U wd a n HU Hwd Hw)). Qed.
+Theorem C08_centroid_on_wind_axis_any_tower_x_partial : forall (O : Ops), Laws O -> forall (a : args O) (g : geom O) sel k i0 n m rows,
+  (forall pq s, sel (cmul O (fst pq) s, cmul O (snd pq) s) = cmul O (sel pq) s) ->
+  geometry O a = inl g -> a_footprint O a = true -> no_u O a -> g_dx O g <> c0 O ->
+  tower_x O a g m -> exact_x_at O g m -> (2 * i0 + Z.of_nat n - 1 = m)%Z -> n <> 0%nat ->
+  (k < length (a_levels O a))%nat ->
+  (forall i, (i0 <= i < i0 + Z.of_nat n)%Z -> (cyc (g_nxe O g) 0 i < g_nx O g)%nat) ->
+  (forall j, In j rows -> (j < g_ny O g)%nat) ->
+  let S := fun i : Z => csum O (map (fun j =>
+              get3 O (field O a g sel (table O a g)) k j (cyc (g_nxe O g) 0 i)) rows) in
+  rsum O i0 n (fun i => cmul O (cofZ O (2 * i - m)) (S i)) = c0 O /\
+  rsum O i0 n (fun i => cmul O (cmul O (cofZ O i) (g_dx O g)) (S i)) = cmul O (a_xm O a) (rsum O i0 n S).
+Proof. exact centroid_cols_any. Qed.
 
-(* end to end over the complex numbers (Laws proved: ROps_laws): flux footprint for wind_dir 90/270, any closure *)
-Theorem C08_centroid_cardinal_east_west_partial : forall c E U wd (a : args ROps) (g : geom ROps) n k jm r cols,
-  U <> 0 -> wd = 90 \/ wd = 270 -> env_wind E U wd ->
-  p_v ROps (a_prof ROps a) = column (v_node c E) n ->
-  geometry ROps a = inl g -> a_footprint ROps a = true -> g_dy ROps g <> c0 ROps ->
-  tower_y ROps a g (2 * Z.of_nat jm) -> exact_y ROps g ->
-  (k < length (a_levels ROps a))%nat ->
-  (forall d, (- Z.of_nat r <= d <= Z.of_nat r)%Z -> (cyc (g_nye ROps g) jm d < g_ny ROps g)%nat) ->
-  (forall i, In i cols -> (i < g_nx ROps g)%nat) ->
-  let S := fun d : Z => csum ROps (map (fun i =>
-              get3 ROps (field ROps a g snd (table ROps a g)) k (cyc (g_nye ROps g) jm d) i) cols) in
-  wsum ROps r (fun d => cmul ROps (cofZ ROps d) (S d)) = c0 ROps /\
-  wsum ROps r (fun d => cmul ROps (cmul ROps (cofZ ROps (Z.of_nat jm + d)) (g_dy ROps g)) (S d))
-  = cmul ROps (a_ym ROps a) (wsum ROps r S).
-Proof. exact cardinal_centroid_rows. Qed.
+Theorem C08_centroid_on_wind_axis_any_tower_x_noNyq_partial : forall (O : Ops), Laws O -> forall (a : args O) (g : geom O) sel k i0 n m rows,
+  (forall pq s, sel (cmul O (fst pq) s, cmul O (snd pq) s) = cmul O (sel pq) s) ->
+  geometry O a = inl g -> a_footprint O a = true -> no_u O a -> g_dx O g <> c0 O ->
+  tower_x O a g m -> (2 * i0 + Z.of_nat n - 1 = m)%Z -> n <> 0%nat ->
+  (k < length (a_levels O a))%nat ->
+  (forall i, (i0 <= i < i0 + Z.of_nat n)%Z -> (cyc (g_nxe O g) 0 i < g_nx O g)%nat) ->
+  (forall j, In j rows -> (j < g_ny O g)%nat) ->
+  let S := fun i : Z => csum O (map (fun j =>
+              get3 O (field O a g sel (table_noNyq O a g)) k j (cyc (g_nxe O g) 0 i)) rows) in
+  rsum O i0 n (fun i => cmul O (cofZ O (2 * i - m)) (S i)) = c0 O /\
+  rsum O i0 n (fun i => cmul O (cmul O (cofZ O i) (g_dx O g)) (S i)) = cmul O (a_xm O a) (rsum O i0 n S).
+Proof. exact centroid_cols_any_noNyq. Qed.
 
-Theorem C08_centroid_cardinal_north_south_partial : forall c E U wd (a : args ROps) (g : geom ROps) n k im r rows,
-  U <> 0 -> wd = 0 \/ wd = 180 -> env_wind E U wd ->
-  p_u ROps (a_prof ROps a) = column (u_node c E) n ->
-  geometry ROps a = inl g -> a_footprint ROps a = true -> g_dx ROps g <> c0 ROps ->
-  tower_x ROps a g (2 * Z.of_nat im) -> exact_x ROps g ->
-  (k < length (a_levels ROps a))%nat ->
-  (forall d, (- Z.of_nat r <= d <= Z.of_nat r)%Z -> (cyc (g_nxe ROps g) im d < g_nx ROps g)%nat) ->
-  (forall j, In j rows -> (j < g_ny ROps g)%nat) ->
-  let S := fun d : Z => csum ROps (map (fun j =>
-              get3 ROps (field ROps a g snd (table ROps a g)) k j (cyc (g_nxe ROps g) im d)) rows) in
-  wsum ROps r (fun d => cmul ROps (cofZ ROps d) (S d)) = c0 ROps /\
-  wsum ROps r (fun d => cmul ROps (cmul ROps (cofZ ROps (Z.of_nat im + d)) (g_dx ROps g)) (S d))
-  = cmul ROps (a_xm ROps a) (wsum ROps r S).
-Proof. exact cardinal_centroid_cols. Qed.
+(* non-vacuity for a tower half way between two rows (m = 3): rows 1 and 2 are mirror images, window rows 1..2 *)
+Example C08_axis_half_cell_nonvacuous : forall (O : Ops), Laws O ->
+  geometry O (ex_args_half O) = inl (ex_geom O) /\ a_footprint O (ex_args_half O) = true /\ no_v O (ex_args_half O) /\
+  tower_y O (ex_args_half O) (ex_geom O) 3 /\ mirror_rows O (ex_geom O) 3 1 2 /\ (2 * 1 + Z.of_nat 2 - 1 = 3)%Z /\
+  (forall j, (1 <= j < 1 + Z.of_nat 2)%Z -> (cyc (g_nye O (ex_geom O)) 0 j < g_ny O (ex_geom O))%nat).
+Proof. exact axis_example_half. Qed.
 
-(* non-vacuity of env_wind with a cardinal direction and a non-zero speed *)
-Example C08_cardinal_nonvacuous : exists E, env_wind E 3 270 /\ (3 : R) <> 0 /\ e_um E = 3 /\ e_vm E = 0.
-Proof. exact cardinal_example. Qed.
-
-Goal True. idtac "THEOREM C08_cardinal_no_crosswind". Abort. Print Assumptions C08_cardinal_no_crosswind.
-Goal True. idtac "THEOREM C08_cardinal_request". Abort. Print Assumptions C08_cardinal_request.
-Goal True. idtac "THEOREM C08_centroid_cardinal_east_west_partial". Abort. Print Assumptions C08_centroid_cardinal_east_west_partial.
-Goal True. idtac "THEOREM C08_centroid_cardinal_north_south_partial". Abort. Print Assumptions C08_centroid_cardinal_north_south_partial.
-Goal True. idtac "THEOREM C08_cardinal_nonvacuous". Abort. Print Assumptions C08_cardinal_nonvacuous.
+Goal True. idtac "THEOREM C08_centroid_on_wind_axis_any_tower_partial". Abort. Print Assumptions C08_centroid_on_wind_axis_any_tower_partial.
+Goal True. idtac "THEOREM C08_centroid_on_wind_axis_any_tower_noNyq_partial". Abort. Print Assumptions C08_centroid_on_wind_axis_any_tower_noNyq_partial.
+Goal True. idtac "THEOREM C08_centroid_on_wind_axis_any_tower_x_partial". Abort. Print Assumptions C08_centroid_on_wind_axis_any_tower_x_partial.
+Goal True. idtac "THEOREM C08_centroid_on_wind_axis_any_tower_x_noNyq_partial". Abort. Print Assumptions C08_centroid_on_wind_axis_any_tower_x_noNyq_partial.
+Goal True. idtac "THEOREM C08_axis_half_cell_nonvacuous". Abort. Print Assumptions C08_axis_half_cell_nonvacuous.
